@@ -149,6 +149,16 @@ func ConvertsToQuantity(ctx *expr.Context, input system.Collection, args ...expr
 	if len(args) > 1 {
 		return nil, fmt.Errorf("%w: received %v arguments, expected 1 or 0", ErrWrongArity, len(args))
 	}
+	// An empty unit argument propagates as empty
+	if len(args) == 1 {
+		unit, err := args[0].Evaluate(ctx, input)
+		if err != nil {
+			return nil, err
+		}
+		if unit.IsEmpty() {
+			return system.Collection{}, nil
+		}
+	}
 	// Conversion validation
 	result, err := ToQuantity(ctx, input, args...)
 	if result.IsEmpty() || err != nil {
